@@ -40,8 +40,8 @@ KWSET = set(KEYWORDS)
 BASIC_BLOCKS = {"rates", "user_print", "user_punch", "user_graph", "calculate_values"}
 
 BASES = ["sol", "spread", "eq", "exch", "surf", "kin", "gas", "ss", "ops", "adv", "trn", "inv", "out", "dbk", "iso", "pitz", "sit",
-         "modify", "surfdl", "incl", "raw", "kinq"]
-QUICK_D1 = ["eq", "ops", "gas", "sit", "ss", "exch", "kinq"]     # kinq: kinetics over 1e-3 s (a wrong-signed rate of the full "kin" base can run for minutes)          # bases whose whole D1 neighbourhood is in the quick tier
+         "modify", "surfdl", "incl", "raw", "kinq", "basfn"]
+QUICK_D1 = ["eq", "ops", "gas", "sit", "ss", "exch", "kinq", "basfn"]     # kinq: kinetics over 1e-3 s (a wrong-signed rate of the full "kin" base can run for minutes); basfn: BASIC functions with name / number / template arguments evaluated in the last step of a simulation that is followed by another one (an ERROR there does not stop the run)          # bases whose whole D1 neighbourhood is in the quick tier
 
 _cache = {}
 
